@@ -670,6 +670,8 @@ def make_witness(ctx, c, ob):
     w["exc"] = ob.info.get("exc") if ob.info else None
     # values the counterexample gives to the results of ASSUMED callee summaries, in call order: the
     # native replay stubs those callees with exactly these values
+    w["choices"] = [vals.get(n, 0) for n in getattr(ctx, "choice_names", [])]
+    w["choices"] = [int(c) if not isinstance(c, bool) and c is not None else bool(c) for c in w["choices"]]
     w["stubs"] = []
     for label, rname, shape in getattr(ctx, "summary_returns", []):
         try:
